@@ -300,6 +300,50 @@ theorem InvCore.replaceValue {d d' : Db} (h : InvCore d) (cid : Nat) (k : Str) (
       have : d.hasItem cid k = true := by simpa using hitem
       exact this
 
+/-- FILL_PACKET_SQL -/
+theorem InvCore.fillPacket {d : Db} (h : InvCore d) (cid ln row : Nat) : InvCore (d.fillPacket cid ln row) := by
+  unfold Db.fillPacket
+  simp only []
+  split
+  · exact h
+  · rename_i hrow
+    have hpos : 0 < row := by
+      have : row ≠ 0 := by simpa using hrow
+      exact Nat.pos_of_ne_zero this
+    refine ⟨h.loopPK, h.itemPK, ?_, h.scalar1, h.scalarRows, ?_, h.loopFK, h.itemFK, ?_⟩
+    · show (d.values ++ _).Pairwise ValueKeyNe
+      rw [List.pairwise_append]
+      refine ⟨h.valuePK, ?_, ?_⟩
+      · rw [List.pairwise_map]
+        have hp : ((d.items.filter (fun i => i.cid == cid && i.loopNum == ln)).filter (fun i => !d.hasValue cid i.name row)).Pairwise ItemKeyNe :=
+          (h.itemPK.filter _).filter _
+        refine hp.imp_of_mem ?_
+        intro a b ha hb hab ⟨_, h2, _⟩
+        have ka := (List.mem_filter.mp (List.mem_filter.mp ha).1).2
+        have kb := (List.mem_filter.mp (List.mem_filter.mp hb).1).2
+        simp at ka kb
+        exact hab ⟨by rw [ka.1, kb.1], h2⟩
+      · intro a ha b hb ⟨h1, h2, h3⟩
+        obtain ⟨i, hi, rfl⟩ := List.mem_map.mp hb
+        have hno := (List.mem_filter.mp hi).2
+        simp only [] at h1 h2 h3
+        have : d.hasValue cid i.name row = true := by
+          simp only [Db.hasValue, List.any_eq_true]
+          exact ⟨a, ha, by simp [h1, h2, h3]⟩
+        simp [this] at hno
+    · intro w hw
+      rcases List.mem_append.mp hw with hw | hw
+      · exact h.rowPos w hw
+      · obtain ⟨i, _, rfl⟩ := List.mem_map.mp hw
+        exact hpos
+    · intro w hw
+      rcases List.mem_append.mp hw with hw | hw
+      · exact h.valueFK w hw
+      · obtain ⟨i, hi, rfl⟩ := List.mem_map.mp hw
+        obtain ⟨him, hik⟩ := List.mem_filter.mp (List.mem_filter.mp hi).1
+        simp at hik
+        exact (hasItem_iff d _ _).mpr ⟨i, him, hik.1, rfl⟩
+
 -- ---- updates of the loop table -------------------------------------------------------------------------------------------
 
 theorem any_map_key (ls : List LoopRow) (f : LoopRow → LoopRow) (hk : ∀ l, (f l).cid = l.cid ∧ (f l).loopNum = l.loopNum) (c n : Nat) :
@@ -831,6 +875,14 @@ theorem Inv.setAllValues {d : Db} (h : Inv d) (cid : Nat) (k : Str) (v : V) : In
     · first | exact h.ext | exact h.tree
     · first | exact h.ext.sameLoops rfl rfl rfl | exact h.tree.same rfl rfl (fun _ hid => hid)
 
+theorem Inv.fillPacket {d : Db} (h : Inv d) (cid ln row : Nat) : Inv (d.fillPacket cid ln row) := by
+  refine ⟨h.core.fillPacket cid ln row, ?_, ?_⟩ <;>
+  · unfold Db.fillPacket
+    simp only []
+    split
+    · first | exact h.ext | exact h.tree
+    · first | exact h.ext.sameLoops rfl rfl rfl | exact h.tree.same rfl rfl (fun _ hid => hid)
+
 theorem map_keys_sub {d : Db} (f : LoopRow → LoopRow) (hk : ∀ l, (f l).cid = l.cid ∧ (f l).loopNum = l.loopNum) :
     ∀ l ∈ d.loops.map f, ∃ l0 ∈ d.loops, l0.cid = l.cid ∧ l0.loopNum = l.loopNum := by
   intro l hl
@@ -1005,7 +1057,7 @@ theorem addPacketBody_inv (l : LH) (p : List (Str × V)) (d d' : Db) (u : Unit) 
       · cases he
       · rename_i d2 hv
         cases he
-        exact addValues_inv _ _ _ _ _ _ (h.bumpRowNum _ _ hb) hv
+        exact (addValues_inv _ _ _ _ _ _ (h.bumpRowNum _ _ hb) hv).fillPacket _ _ _
 
 theorem createLoopInternal_invS {s : Store} (h : InvS s) (hd : CH) (cat : Option Str) (names : List Name) :
     InvS (createLoopInternal s hd cat names).1 :=
